@@ -26,6 +26,11 @@ CONSTANTS Last,        \* rows and columns 1..Last of sheet 1 are in play (far f
 
 Bottom == 0     \* the image of a deleted row / column
 MaxRC == 999    \* stands for "the last row / column" in whole-column and whole-row ranges
+GridRows == 1048576   \* the real grid: a reference pushed beyond it becomes #REF!
+GridCols == 16384
+GridLast(axis) == IF axis = "r" THEN GridRows ELSE GridCols
+(* positions the maps are defined on: the window in play and the last rows / columns of the grid *)
+Dom(axis) == (0..(Last + 4 * MaxK + 2 * MaxD)) \cup ((GridLast(axis) - 12)..GridLast(axis))
 
 (* ---- references --------------------------------------------------------- *)
 CellRef(s, r, c, ar, ac) == [kind |-> "cell", s |-> s, r1 |-> r, c1 |-> c, ar1 |-> ar, ac1 |-> ac, r2 |-> r, c2 |-> c, ar2 |-> ar, ac2 |-> ac, st |-> "ok"]
@@ -64,7 +69,10 @@ Formulas == {
   F(2, 3, 2, 6, <<CellRef(2, 1, 2, FALSE, FALSE), CellRef(1, 3, 1, TRUE, TRUE)>>),
   F(1, 3, 4, 7, <<RangeRef(1, 3, 1, 3, 3, FALSE, FALSE, FALSE, FALSE)>>),
   F(2, 2, 1, 8, <<ColsRef(1, 3, 4, FALSE, TRUE), RowsRef(1, 2, 2, FALSE, FALSE)>>),
-  F(2, 4, 4, 9, <<NameRef("TAXRATE"), CellRef(1, 2, 4, FALSE, FALSE)>>) }
+  F(2, 4, 4, 9, <<NameRef("TAXRATE"), CellRef(1, 2, 4, FALSE, FALSE)>>),
+  \* references at the edge of the grid: an insertion pushes them off
+  F(2, 5, 1, 10, <<CellRef(1, GridRows, 1, FALSE, FALSE), CellRef(1, 1, GridCols, TRUE, TRUE)>>),
+  F(2, 5, 2, 11, <<RangeRef(1, GridRows - 1, 2, GridRows, 2, FALSE, FALSE, FALSE, FALSE), CellRef(1, GridRows - 1, 1, FALSE, FALSE)>>) }
 L(r, c, id) == [s |-> 1, r |-> r, c |-> c, v |-> Lit(id)]
 Others == {[s |-> 1, r |-> 1, c |-> 3, v |-> QText(7)], [s |-> 2, r |-> 1, c |-> 2, v |-> Num(99)],
            L(1, 4, 102), L(2, 4, 103), L(4, 2, 104), L(2, 1, 105), L(3, 2, 106), L(2, 3, 107),
@@ -86,10 +94,10 @@ SInit ==
   /\ trail = <<>> /\ steps = 0
 
 (* ---- position maps (on one coordinate) ------------------------------------ *)
-SigIns(i, k) == [p \in 0..(Last + 4 * MaxK + 2 * MaxD) |-> IF p >= i THEN p + k ELSE p]
-SigDel(i, k) == [p \in 0..(Last + 4 * MaxK + 2 * MaxD) |-> IF p < i THEN p ELSE IF p < i + k THEN Bottom ELSE p - k]
-SigMove(i, n, d) ==       \* block [i, i+n-1] moved by d; the band in between shifts by n the other way
-  [p \in 0..(Last + 4 * MaxK + 2 * MaxD) |->
+SigIns(i, k, axis) == [p \in Dom(axis) |-> IF p >= i THEN (IF p + k > GridLast(axis) THEN Bottom ELSE p + k) ELSE p]    \* pushed off the grid: gone
+SigDel(i, k, axis) == [p \in Dom(axis) |-> IF p < i THEN p ELSE IF p < i + k THEN Bottom ELSE p - k]
+SigMove(i, n, d, axis) ==       \* block [i, i+n-1] moved by d; the band in between shifts by n the other way
+  [p \in Dom(axis) |->
      IF p \in i..(i + n - 1) THEN p + d
      ELSE IF d > 0 /\ p \in (i + n)..(i + n - 1 + d) THEN p - n
      ELSE IF d < 0 /\ p \in (i + d)..(i - 1) THEN p + n
@@ -176,12 +184,12 @@ Apply(axis, sig, op, i, n, d, a) ==
   /\ steps' = steps + 1
   /\ trail' = Append(trail, [a |-> a, cells |-> cells', rowh |-> rowh', colw |-> colw', links |-> links', cf |-> cf', names |-> names'])
 
-InsRows(i, k) == Apply("r", SigIns(i, k), "ins", i, k, 0, [op |-> "insert_rows", s |-> 0, i |-> i, k |-> k])
-InsCols(i, k) == Apply("c", SigIns(i, k), "ins", i, k, 0, [op |-> "insert_cols", s |-> 0, i |-> i, k |-> k])
-DelRows(i, k) == Apply("r", SigDel(i, k), "del", i, k, 0, [op |-> "delete_rows", s |-> 0, i |-> i, k |-> k])
-DelCols(i, k) == Apply("c", SigDel(i, k), "del", i, k, 0, [op |-> "delete_cols", s |-> 0, i |-> i, k |-> k])
-MoveRows(i, n, d) == i + d >= 1 /\ Apply("r", SigMove(i, n, d), "move", i, n, d, [op |-> "move_rows", s |-> 0, i |-> i, k |-> n, d |-> d])
-MoveCols(i, n, d) == i + d >= 1 /\ Apply("c", SigMove(i, n, d), "move", i, n, d, [op |-> "move_cols", s |-> 0, i |-> i, k |-> n, d |-> d])
+InsRows(i, k) == Apply("r", SigIns(i, k, "r"), "ins", i, k, 0, [op |-> "insert_rows", s |-> 0, i |-> i, k |-> k])
+InsCols(i, k) == Apply("c", SigIns(i, k, "c"), "ins", i, k, 0, [op |-> "insert_cols", s |-> 0, i |-> i, k |-> k])
+DelRows(i, k) == Apply("r", SigDel(i, k, "r"), "del", i, k, 0, [op |-> "delete_rows", s |-> 0, i |-> i, k |-> k])
+DelCols(i, k) == Apply("c", SigDel(i, k, "c"), "del", i, k, 0, [op |-> "delete_cols", s |-> 0, i |-> i, k |-> k])
+MoveRows(i, n, d) == i + d >= 1 /\ Apply("r", SigMove(i, n, d, "r"), "move", i, n, d, [op |-> "move_rows", s |-> 0, i |-> i, k |-> n, d |-> d])
+MoveCols(i, n, d) == i + d >= 1 /\ Apply("c", SigMove(i, n, d, "c"), "move", i, n, d, [op |-> "move_cols", s |-> 0, i |-> i, k |-> n, d |-> d])
 
 (* ---- C33: clearing a cell's content removes its link (the style stays); undo restores it ---- *)
 Clear(r, c) ==
@@ -311,7 +319,9 @@ IsInsDel ==
   Len(trail) = 2 /\ trail[1].a.op \in {"insert_rows", "insert_cols"} /\
   trail[2].a.op = (IF trail[1].a.op = "insert_rows" THEN "delete_rows" ELSE "delete_cols") /\
   trail[2].a.i = trail[1].a.i /\ trail[2].a.k = trail[1].a.k
-InsertDeleteIdentity == IsInsDel => (cells = Cells0 /\ rowh = Rowh0 /\ colw = Colw0 /\ links = Links0 /\ cf = Cf0 /\ names = Names0)
+(* ("provided the insertion pushed no reference off the grid": formulas 10 and 11 sit at the edge and are left out) *)
+AwayFromEdge(S) == {x \in S : x.v.id \notin {10, 11}}
+InsertDeleteIdentity == IsInsDel => (AwayFromEdge(cells) = AwayFromEdge(Cells0) /\ rowh = Rowh0 /\ colw = Colw0 /\ links = Links0 /\ cf = Cf0 /\ names = Names0)
 (* C33 on the design: clear then undo is the identity *)
 ClearUndoIdentity == (Len(trail) = 2 /\ trail[2].a.op = "undo") => (cells = Cells0 /\ links = Links0 /\ cf = Cf0)
 
@@ -321,7 +331,7 @@ MovePermutes == [][ (trail' # trail /\ trail'[Len(trail')].a.op \in {"move_rows"
 (* C12 on the design: an insertion loses no cell and breaks no reference *)
 InsertLosesNothing == [][ (trail' # trail /\ trail'[Len(trail')].a.op \in {"insert_rows", "insert_cols"}) =>
                     (Cardinality(cells') = Cardinality(cells) /\
-                     \A x \in cells' : x.v.k = "f" => \A j \in 1..Len(x.v.refs) : (x.v.refs[j].st = "ok" \/ \E y \in cells : y.v.id = x.v.id /\ y.v.k = "f" /\ y.v.refs[j].st # "ok")) ]_vars
+                     \A x \in cells' : x.v.k = "f" => \A j \in 1..Len(x.v.refs) : (x.v.refs[j].st = "ok" \/ \E y \in cells : y.v.id = x.v.id /\ y.v.k = "f" /\ (y.v.refs[j].st # "ok" \/ y.v.refs[j].r2 > 1000 \/ y.v.refs[j].c2 > 1000))) ]_vars
 
 Emit == (steps = MaxSteps) => PrintT(<<"BEHAVIOUR", ToJson([init |-> [cells |-> Cells0, rowh |-> Rowh0, colw |-> Colw0, links |-> Links0, cf |-> Cf0, names |-> Names0], steps |-> trail])>>)
 =============================================================================
